@@ -201,9 +201,21 @@ class ManifestContext:
             return 1
         return max([p.maxSegmentDuration for p in self.periods])
 
+    @staticmethod
+    def periods_are_playable(multi_period: models.MultiPeriodStream) -> bool:
+        """
+        False if a Period plays a stream that has (since) lost its timing reference
+        """
+        for prd in multi_period.periods:
+            if prd.stream is None or prd.stream.timing_reference is None:
+                return False
+        return True
+
     def create_all_vod_periods(self,
                                multi_period: models.MultiPeriodStream) -> None:
         start: datetime.timedelta = datetime.timedelta(0)
+        if not self.periods_are_playable(multi_period):
+            return
         for prd in multi_period.periods:
             timing = DashTiming(
                 self.now, prd.stream.timing_reference, self.options)
@@ -219,6 +231,8 @@ class ManifestContext:
     def create_all_live_periods(self,
                                 multi_period: models.MultiPeriodStream) -> None:
         duration = multi_period.total_duration()
+        if not self.periods_are_playable(multi_period):
+            return
         if duration.total_seconds() <= 0:
             # no Periods (or only empty ones): there is nothing to loop over
             return
